@@ -222,6 +222,7 @@ class Module:
         self.classes = {}
         self.consts = {}
         self.imports = {}   # local name -> (module basename or dotted, original name or None)
+        self.star_imports = []
         for st in self.tree.body:
             if isinstance(st, ast.FunctionDef):
                 self.funcs[st.name] = Func(self, None, st)
@@ -239,6 +240,9 @@ class Module:
             elif isinstance(st, ast.ImportFrom):
                 modname = st.module or ''
                 for al in st.names:
+                    if al.name == '*':
+                        self.star_imports.append(('.' * st.level) + modname)
+                        continue
                     self.imports[al.asname or al.name] = (
                         ('.' * st.level) + modname, al.name)
             elif isinstance(st, ast.Import):
@@ -338,6 +342,15 @@ class Repo:
             return ('ext', src if orig is None else f'{src}.{orig}')
         if name in module.consts:
             return ('const', (module, name))
+        for src in module.star_imports:
+            base = src.lstrip('.')
+            if src.startswith('.') and base in self.modules:
+                m2 = self.modules[base]
+                allnames = m2.consts.get('__all__')
+                if isinstance(allnames, (list, tuple)) and name not in allnames:
+                    continue
+                if name in m2.funcs or name in m2.classes:
+                    return self.resolve_import(m2, name)
         return None
 
     def digest(self, modnames=None):
